@@ -203,6 +203,14 @@ def strip_macro_calls(text: str, names: List[str], repl: str, report: DropReport
     return text
 
 
+def w9_panic_args(text: str, report: DropReport, item: str) -> str:
+    """W9: `panic!(..)`/`unreachable!(..)` are KEPT (vstd gives them `requires false`, so each must be
+    proved unreachable); only their message arguments are dropped."""
+    for nm in ("unreachable", "panic"):
+        text = strip_macro_calls(text, [nm], nm + "!()", report, item, "W9")
+    return text
+
+
 def w6_message_text(text: str, report: DropReport, item: str) -> str:
     text = strip_macro_calls(text, ["format"], "fmt_opaque()", report, item, "W6")
     # "lit".to_string()  /  String::from("lit")  /  "lit".to_owned()  / "lit".into()
@@ -228,6 +236,9 @@ def w6_message_text(text: str, report: DropReport, item: str) -> str:
     return text
 
 
+KEEP_DERIVES = ("PartialEq", "Eq", "Clone", "Copy")
+
+
 def strip_attributes(text: str, report: DropReport, item: str) -> str:
     fr = R.Frag(text)
     ct = fr.ct
@@ -236,7 +247,12 @@ def strip_attributes(text: str, report: DropReport, item: str) -> str:
     while i < len(ct) - 1:
         if ct[i].text == "#" and ct[i + 1].text == "[":
             e = R.match_close(ct, i + 1)
-            fr.replace(ct[i].start, ct[e].end, "")
+            keep = ""
+            if ct[i + 2].text == "derive":
+                ds = [t.text for t in ct[i + 3:e] if t.kind == "ident" and t.text in KEEP_DERIVES]
+                if ds:
+                    keep = "#[derive(" + ", ".join(ds) + ")]"
+            fr.replace(ct[i].start, ct[e].end, keep)
             cnt += 1
             i = e + 1
             continue
@@ -354,6 +370,21 @@ def retype_fields(text: str, keep: List[str], report: DropReport, item: str) -> 
     return fr.apply()
 
 
+def owner_key(impl_name: str) -> str:
+    """`impl<..> From<X> for Foo<T>` -> `Foo`;  `impl Foo` -> `Foo`"""
+    h = re.sub(r"^impl\b", "", impl_name).strip()
+    # drop generic argument lists
+    prev = None
+    while prev != h:
+        prev = h
+        h = re.sub(r"<[^<>]*>", "", h)
+    h = h.split(" where ")[0].strip()
+    if " for " in h:
+        h = h.split(" for ")[-1].strip()
+    m = re.findall(r"[A-Za-z_][A-Za-z0-9_]*", h)
+    return m[-1] if m else ""
+
+
 def splice_fn(text: str, sp: Splice, item: str, vacuity: bool = False) -> str:
     """Apply W3/W4/W5 splices to the text of one `fn` item."""
     fr = R.Frag(text)
@@ -399,7 +430,7 @@ def splice_fn(text: str, sp: Splice, item: str, vacuity: bool = False) -> str:
     if sp.body_start:
         fr.insert(ct[bo].end, "\n" + sp.body_start)
     if vacuity and sp.contract.strip():
-        fr.insert(ct[bo].end, f"\nassert(false); // @vacuity.{item.split('::')[-1]}.body\n")
+        fr.insert(ct[bo].end, f"\nassert(false); // @vacuity.{item.replace('::', '.')}.body\n")
     if sp.body_end:
         fr.insert(ct[bc].start, "\n" + sp.body_end)
     if sp.closures:
@@ -428,7 +459,7 @@ def splice_fn(text: str, sp: Splice, item: str, vacuity: bool = False) -> str:
             if n in sp.loop_body_start:
                 fr.insert(ct[lbo].end, "\n" + sp.loop_body_start[n])
             if vacuity and n in sp.loop_inv:
-                fr.insert(ct[lbo].end, f"\nassert(false); // @vacuity.{item.split('::')[-1]}.loop{n}\n")
+                fr.insert(ct[lbo].end, f"\nassert(false); // @vacuity.{item.replace('::', '.')}.loop{n}\n")
     for which, lst in (("before", sp.before), ("after", sp.after)):
         for pat, n, txt in lst:
             seq = R.tokenize_pattern(pat)
@@ -464,6 +495,14 @@ class Unit:
         self.dir = os.path.join(VERIF, "contracts", name)
         with open(os.path.join(self.dir, "unit.toml"), "rb") as f:
             self.cfg = tomllib.load(f)
+        inc_items = []
+        for rel in self.cfg.get("include_items", []):
+            with open(os.path.join(self.dir, rel), "rb") as f:
+                inc = tomllib.load(f)
+            inc_items += inc.get("item", [])
+            self.cfg.setdefault("subst", [])
+            self.cfg["subst"] = inc.get("subst", []) + self.cfg["subst"]
+        self.cfg["item"] = inc_items + self.cfg.get("item", [])
         self.report = DropReport()
         self.chunks: List[Chunk] = []
         self.spans: List[dict] = []
@@ -477,6 +516,8 @@ class Unit:
         substs = list(self.cfg.get("subst", [])) + list(icfg.get("subst", []))
         fns: List[str] = []
 
+        trait_impl = it.kind == "impl" and " for " in it.name
+
         def prep_fn(text: str, fname: str, owner: str) -> str:
             itemname = f"{owner}::{fname}" if owner else fname
             text = strip_attributes(text, self.report, itemname) if icfg.get("strip_attrs", True) else text
@@ -487,9 +528,11 @@ class Unit:
                 text = rewrite_yield(text, sink, self.report, itemname)
             if icfg.get("w6", self.cfg.get("w6", False)):
                 text = w6_message_text(text, self.report, itemname)
+            text = w9_panic_args(text, self.report, itemname)
             text = apply_token_substs(text, substs, self.report, itemname)
-            sp = self._splice_for(fname, variant)
+            sp = self._splice_for(fname, variant, owner)
             text = splice_fn(text, sp, itemname, vacuity)
+            text = publicise(text, "fn", self.report, itemname, in_trait_impl=trait_impl)
             return text
 
         if it.kind == "fn":
@@ -511,7 +554,7 @@ class Unit:
                 header = icfg["header"] + " {"
             kids = {f"{c.kind} {c.name}": c for c in src.children(it) if not c.is_test}
             parts = [header]
-            owner = re.sub(r"^impl(<.*?>)?\s*", "", it.name)
+            owner = owner_key(it.name)
             for sel in only:
                 if sel not in kids:
                     raise ExtractError(f"{relfile}: `{sel}` not found in `{it.name}`")
@@ -523,7 +566,7 @@ class Unit:
                     parts.append(prep_fn(raw, c.name, owner))
                     fns.append(c.name)
                 else:
-                    parts.append(apply_token_substs(strip_attributes(raw, self.report, sel), substs, self.report, sel))
+                    parts.append(publicise(apply_token_substs(strip_attributes(raw, self.report, sel), substs, self.report, sel), c.kind, self.report, sel, trait_impl))
             parts.append("}")
             return Chunk("repo", label, "\n\n".join(parts), relfile, (src.line_of(it.start), src.line_of(it.end - 1)), None, fns)
 
@@ -534,6 +577,16 @@ class Unit:
             if it.kind == "struct" and "keep_fields" in icfg:
                 text = retype_fields(text, icfg["keep_fields"], self.report, label)
             text = apply_token_substs(text, substs, self.report, label)
+            if it.kind in ("const", "static"):
+                # the language elides `'static` in const/static item types; the verus! macro (which lowers
+                # consts to functions) needs it written out
+                fr = R.Frag(text)
+                for i, t in enumerate(fr.ct[:-1]):
+                    if t.text == "&" and fr.ct[i + 1].kind != "lifetime":
+                        fr.insert(t.end, "'static ")
+                        self.report.add("W0", label, "elided `'static` lifetime of a const item written out")
+                text = fr.apply()
+            text = publicise(text, it.kind, self.report, label)
             self.spans.append({"item": label, "file": relfile, "lines": [src.line_of(it.start), src.line_of(it.end - 1)], "sha256": sha})
             return Chunk("repo", label, text, relfile, (src.line_of(it.start), src.line_of(it.end - 1)), sha, [])
 
@@ -574,18 +627,26 @@ class Unit:
         if icfg.get("w6", self.cfg.get("w6", False)):
             text = w6_message_text(text, self.report, itemname)
         text = apply_token_substs(text, substs, self.report, itemname)
-        text = splice_fn(text, self._splice_for(fname, variant), itemname, vacuity)
+        text = splice_fn(text, self._splice_for(fname, variant, icfg.get("owner", "")), itemname, vacuity)
         if "wrap_impl" in icfg:
             text = icfg["wrap_impl"] + " {\n" + text + "\n}"
         return Chunk("repo", label, text, relfile, (l1, l2), sha, [fname])
 
-    def _splice_for(self, fname: str, variant: Optional[str]) -> Splice:
-        base = os.path.join(self.dir, "splice", fname + ".rs")
+    def _splice_for(self, fname: str, variant: Optional[str], owner: str = "") -> Splice:
+        names = ([f"{owner}.{fname}"] if owner else []) + [fname]
+        dirs = (self.dir, os.path.join(VERIF, "contracts", "_common"))
         if variant:
-            v = os.path.join(self.dir, "splice", f"{fname}.{variant}.rs")
-            if os.path.exists(v):
-                return parse_splice(v)
-        return parse_splice(base)
+            for d in dirs:
+                for nm in names:
+                    v = os.path.join(d, "splice", f"{nm}.{variant}.rs")
+                    if os.path.exists(v):
+                        return parse_splice(v)
+        for d in dirs:
+            for nm in names:
+                base = os.path.join(d, "splice", nm + ".rs")
+                if os.path.exists(base):
+                    return parse_splice(base)
+        return Splice()
 
     def assemble(self, variant: Optional[str] = None, vacuity: bool = False) -> str:
         self.report = DropReport()
@@ -596,6 +657,10 @@ class Unit:
         if not m:
             raise ValueError("prelude.rs needs a `//@ items` line separating `use` lines from items")
         uses, pitems = prelude[:m.start()], prelude[m.end():]
+
+        def _inc(mm):
+            return open(os.path.join(self.dir, mm.group(1)), encoding="utf-8").read()
+        pitems = re.sub(r"^//@ include (\S+)\s*$", _inc, pitems, flags=re.M)
         spec = open(os.path.join(self.dir, "spec.rs"), encoding="utf-8").read()
         if variant:
             vs = os.path.join(self.dir, f"spec.{variant}.rs")
@@ -626,6 +691,63 @@ class Unit:
             line += t.count("\n")
         out.append("\n} // verus!\nfn main() {}\n")
         return "".join(out)
+
+
+def publicise(text: str, kind: str, report: DropReport, item: str, in_trait_impl: bool = False) -> str:
+    """W0: the assembled file is one module and visibility has no runtime meaning, so every extracted
+    item and struct field is made `pub` (`pub(crate)`/`pub(super)` -> `pub`).  This lets contracts
+    (which Verus checks for visibility consistency) mention fields and helper functions freely."""
+    fr = R.Frag(text)
+    ct = fr.ct
+    n = 0
+    # narrow visibilities
+    i = 0
+    while i < len(ct) - 1:
+        if ct[i].kind == "ident" and ct[i].text == "pub" and ct[i + 1].text == "(" and ct[i + 2].text in ("crate", "super", "self", "in"):
+            e = R.match_close(ct, i + 1)
+            fr.replace(ct[i + 1].start, ct[e].end, "")
+            n += 1
+            i = e
+        i += 1
+    if not in_trait_impl and ct and ct[0].text != "pub" and kind in ("fn", "struct", "enum", "const", "static", "type"):
+        fr.insert(ct[0].start, "pub ")
+        n += 1
+    if kind == "struct":
+        k = 0
+        while k < len(ct) and ct[k].text not in ("{", "(", ";"):
+            if ct[k].text == "<":
+                k = R.skip_generics(ct, k)
+                continue
+            k += 1
+        if k < len(ct) and ct[k].text in ("{", "("):
+            named = ct[k].text == "{"
+            bc = R.match_close(ct, k)
+            j = k + 1
+            start_of_field = True
+            while j < bc:
+                tt = ct[j].text
+                if start_of_field:
+                    while ct[j].text == "#":
+                        j = R.match_close(ct, j + 1) + 1
+                    if j >= bc:
+                        break
+                    if ct[j].text != "pub":
+                        fr.insert(ct[j].start, "pub ")
+                        n += 1
+                    start_of_field = False
+                    continue
+                if tt in R.OPEN:
+                    j = R.match_close(ct, j) + 1
+                    continue
+                if tt == "<":
+                    j = R.skip_generics(ct, j)
+                    continue
+                if tt == ",":
+                    start_of_field = True
+                j += 1
+    if n:
+        report.add("W0", item, "visibility widened to `pub`", n)
+    return fr.apply()
 
 
 # ---------------------------------------------------------------------------
@@ -678,7 +800,9 @@ def fn_ranges(text: str) -> List[Tuple[str, int, int, str]]:
                         mode = src.ct[k].text
                     k += 1
                 out.append((prefix + it.name, src.line_of(it.attr_start), src.line_of(it.end - 1), mode))
-            elif it.kind in ("impl", "mod", "trait"):
+            elif it.kind == "impl":
+                walk(src.children(it), owner_key(it.name) + "::")
+            elif it.kind in ("mod", "trait"):
                 walk(src.children(it), prefix)
     for it in src.top_items():
         if it.kind == "macro" and it.name == "verus":
